@@ -62,6 +62,11 @@ ASSUMPTIONS = [
 def gen_counts(rng):
     if rng.random() < 0.04:  # long tail of a real repertoire: hundreds of categories of size 1-2, or one giant plus singletons
         L = rng.randint(20, 200)
+        w = rng.random()
+        if w < 0.3:  # more categories than a byte can index, all counts below 256 (round 21: an index dtype chosen from the largest count)
+            L = rng.randint(257, 700)
+        elif w < 0.34:  # ... than two bytes can index
+            L = rng.randint(65537, 66000)
         c = [rng.choice([1, 1, 1, 2, 0]) for _ in range(L)]
         if rng.random() < 0.5:
             c[rng.randrange(L)] = rng.choice([50, 500])
